@@ -244,6 +244,13 @@ def run_case(args):
     return res
 
 
+def _raised_in_model(where):
+    """innermost frame of an exception lies in the symbolic model (or in the rational arithmetic it calls), not in the analysed source"""
+    if not where:
+        return False
+    return where[-1].split(':')[0] in ('nd.py', 'ndx.py', 'core.py', 'hapi.py', 'loader.py', 'fractions.py', 'fp.py')
+
+
 def _worker(inq, outq):
     while True:
         item = inq.get()
@@ -470,6 +477,7 @@ def main(argv=None):
     probes_ok = 0
     duplicates = 0
     unconfirmed_samples = []
+    shim_exc = []
     for r in results:
         for cand in r['candidates']:
             if cand.get('duplicate'):
@@ -477,6 +485,10 @@ def main(argv=None):
                 continue
             if not cand.get('confirmed') and (r['case'].get('probe') or cand.get('from_unknown')):
                 probes_ok += 1          # a solver-produced float64 probe input that the real package handles correctly
+                continue
+            if not cand.get('confirmed') and cand['kind'] == 'exc' and _raised_in_model(cand.get('where')):
+                # an exception raised by the model itself (not by the analysed code) that the real package does not raise: the path was not encoded
+                shim_exc.append('%s at %s' % (cand.get('exc'), (cand.get('where') or ['?'])[-1]))
                 continue
             if not cand.get('confirmed'):
                 unconfirmed += 1
@@ -489,6 +501,7 @@ def main(argv=None):
                 known_hits.setdefault(kf[0]['id'], [kf[0], 0])[1] += 1
                 continue
             violations.append((r['case'], cand))
+    notenc += shim_exc
     # abstract (stubbed-kernel) counterexamples that no slice realised: look for a real input with the harness' concretiser.
     # This only ever runs when the solver has already produced an abstract counterexample; whatever it finds is replayed like any other witness.
     if unconfirmed and not violations and hasattr(hm, 'realise'):
